@@ -1,5 +1,5 @@
 import PnVerif.Lemmas.MergeLemmas
-import PnVerif.Lemmas.ReqQueueInv
+import PnVerif.Lemmas.ReqQueueFixed
 /-
   C02 — nonblocking request aggregation is equivalent to blocking execution.
 
@@ -134,10 +134,12 @@ inductive Op
   | wait (num : Int) (ids : List Int) (st : Option (List Int))
   | cancel (num : Int) (ids : List Int) (st : Option (List Int))
 
-def step (nc : NC) : Op → NC
+/-- `V` = which variant of the three repairable code sites the tree has (Model.ReqQueue.Variant;
+    `{}` = the code as found) -/
+def step (V : Variant) (nc : NC) : Op → NC
   | .post true s vb ro ab tag subs mr => { nc with put := (nc.put.post 0 s vb ro ab tag subs mr).1 }
   | .post false s vb ro ab tag subs mr => { nc with get := (nc.get.post 1 s vb ro ab tag subs mr).1 }
-  | .wait num ids st => (ReqQueue.wait nc num ids st).nc
+  | .wait num ids st => (ReqQueue.wait nc num ids st V).nc
   | .cancel num ids st => (ReqQueue.cancel nc num ids st).nc
 
 /-- a posted request has at least one non-lead request (zero-length requests return NC_REQ_NULL
@@ -147,43 +149,60 @@ def wellFormed : Op → Prop
   | _ => True
 
 /-- the operation is not a wait that extract_reqs refuses with NC_EINVAL_REQUEST -/
-def notRefused (nc : NC) : Op → Prop
-  | .wait num ids st => (ReqQueue.wait nc num ids st).err = NC_NOERR
+def notRefused (V : Variant) (nc : NC) : Op → Prop
+  | .wait num ids st => (ReqQueue.wait nc num ids st V).err = NC_NOERR
   | _ => True
 
-def run : NC → List Op → NC
+def run (V : Variant) : NC → List Op → NC
   | nc, [] => nc
-  | nc, op :: ops => run (step nc op) ops
+  | nc, op :: ops => run V (step V nc op) ops
 
-def Admissible : NC → List Op → Prop
+def Admissible (V : Variant) : NC → List Op → Prop
   | _, [] => True
-  | nc, op :: ops => wellFormed op ∧ notRefused nc op ∧ Admissible (step nc op) ops
+  | nc, op :: ops => wellFormed op ∧ notRefused V nc op ∧ Admissible V (step V nc op) ops
 
 theorem inv_init : Inv {} :=
   ⟨[], [], QInv.empty _ _ ⟨rfl, rfl, rfl, rfl⟩, QInv.empty _ _ ⟨rfl, rfl, rfl, rfl⟩⟩
 
-theorem step_inv (nc : NC) (h : Inv nc) (op : Op) (hw : wellFormed op) (hr : notRefused nc op) : Inv (step nc op) := by
+theorem step_inv (V : Variant) (nc : NC) (h : Inv nc) (op : Op) (hw : wellFormed op) (hr : notRefused V nc op) :
+    Inv (step V nc op) := by
   cases op with
   | post isPut s vb ro ab tag subs mr =>
     obtain ⟨vP, vG, hP, hG⟩ := h
     cases isPut with
     | true => exact ⟨_, vG, post_inv nc.put 0 vP hP 0 (by decide) s vb ro ab tag subs mr hw, hG⟩
     | false => exact ⟨vP, _, hP, post_inv nc.get 1 vG hG 1 (by decide) s vb ro ab tag subs mr hw⟩
-  | wait num ids st => exact wait_inv nc h num ids st hr
+  | wait num ids st => exact wait_inv nc h num ids st V hr
   | cancel num ids st => exact cancel_inv nc h num ids st
 
-/-- `queue_inv` (partial): the invariant holds after EVERY history of posts, waits (all forms:
-    explicit lists, NC_REQ_ALL / NC_GET_REQ_ALL / NC_PUT_REQ_ALL, the three shortcuts) and cancels
-    of any length in which no wait is refused with NC_EINVAL_REQUEST. -/
-theorem queue_inv_partial (ops : List Op) : ∀ (nc : NC), Inv nc → Admissible nc ops → Inv (run nc ops) := by
+/-- `queue_inv` (partial; every code variant): the invariant holds after EVERY history of posts,
+    waits (all forms: explicit lists, NC_REQ_ALL / NC_GET_REQ_ALL / NC_PUT_REQ_ALL, the three
+    shortcuts) and cancels of any length in which no wait is refused with NC_EINVAL_REQUEST. -/
+theorem queue_inv_partial (V : Variant) (ops : List Op) :
+    ∀ (nc : NC), Inv nc → Admissible V nc ops → Inv (run V nc ops) := by
   induction ops with
   | nil => intro nc h _; exact h
   | cons op ops ih =>
     intro nc h ha
-    exact ih (step nc op) (step_inv nc h op ha.1 ha.2.1) ha.2.2
+    exact ih (step V nc op) (step_inv V nc h op ha.1 ha.2.1) ha.2.2
 
 /-- the full statement: without the "no refused wait" hypothesis -/
-def queue_inv_Statement : Prop := ∀ ops : List Op, (∀ op ∈ ops, wellFormed op) → Inv (run {} ops)
+def queue_inv_Statement (V : Variant) : Prop :=
+  ∀ ops : List Op, (∀ op ∈ ops, wellFormed op) → Inv (run V {} ops)
+
+/-- `queue_inv` in full for the repaired refusal path (F19 fixed): all histories -/
+theorem queue_inv_fixed (V : Variant) (hV : V.clearOnRefusal = true) : queue_inv_Statement V := by
+  intro ops
+  suffices H : ∀ (nc : NC), Inv nc → (∀ op ∈ ops, wellFormed op) → Inv (run V nc ops) from H {} inv_init
+  induction ops with
+  | nil => intro nc h _; exact h
+  | cons op ops ih =>
+    intro nc h hw
+    apply ih _ _ (fun o ho => hw o (List.mem_cons_of_mem _ ho))
+    cases op with
+    | wait num ids st => exact wait_inv_fixed nc h num ids st V hV
+    | post isPut s vb ro ab tag subs mr => exact step_inv V nc h _ (hw _ List.mem_cons_self) trivial
+    | cancel num ids st => exact step_inv V nc h _ trivial trivial
 
 private def sub1 : Sub := { tag := 0, nelems := 1, xoff := 0 }
 /-- put A (id 0), put B (id 2), get G (id 1); wait_all(2,[A,998]) is refused but leaves
@@ -194,42 +213,61 @@ def f19History : List Op :=
    .post false false 100 100 (-1) 2 [sub1] (-1),
    .wait 2 [0, 998] (some [777, 777]), .wait 1 [2] (some [777])]
 
-theorem queue_inv_counterexample : ¬ queue_inv_Statement := by
+/-- the code as found (F19) -/
+theorem queue_inv_counterexample : ¬ queue_inv_Statement {} := by
   intro h
   have hi := h f19History (by intro op hop; simp [f19History] at hop; rcases hop with rfl | rfl | rfl | rfl | rfl <;> simp [wellFormed, sub1])
   have hm := (queue_inv_meaning _ hi).1
-  have h1 : (run {} f19History).put.numReqs = 1 := by decide
-  have h2 : (run {} f19History).put.nonlead = [] := by decide
+  have h1 : (run {} {} f19History).put.numReqs = 1 := by decide
+  have h2 : (run {} {} f19History).put.nonlead = [] := by decide
   have := hm.2.2.2.1
   rw [h1, h2] at this
   simp at this
 
 /-- non-vacuity of `queue_inv_partial`: a history with a sorted insertion in the middle, a subset
     wait, a shortcut wait and a cancel is admissible -/
-example : Admissible {} [.post true true 300 300 (-1) 0 [sub1, sub1] (-1), .post true true 100 100 (-1) 1 [sub1] (-1),
+example : Admissible {} {} [.post true true 300 300 (-1) 0 [sub1, sub1] (-1), .post true true 100 100 (-1) 1 [sub1] (-1),
                          .post false false 100 100 (-1) 2 [sub1] (-1), .wait 2 [2, -1] (some [777, 777]),
                          .cancel 1 [1] none, .wait (-1) [] none] := by
   simp only [Admissible, wellFormed, notRefused, step]
   repeat' apply And.intro
   all_goals (first | trivial | decide | (simp [sub1]; done))
 
-/-- refused waits are NOT harmless (F19): the statement "a wait that returns an error leaves the
-    queues as they were" is false of the code -/
-def refused_wait_harmless_Statement : Prop :=
-  ∀ nc : NC, Inv nc → ∀ num ids st, (ReqQueue.wait nc num ids st).err ≠ NC_NOERR → (ReqQueue.wait nc num ids st).nc = nc
+/-- a refused wait is harmless: the invariant still holds and the same requests are pending with the
+    same non-lead requests -/
+def refused_wait_harmless_Statement (V : Variant) : Prop :=
+  ∀ nc : NC, Inv nc → ∀ num ids st, (ReqQueue.wait nc num ids st V).err ≠ NC_NOERR →
+    Inv (ReqQueue.wait nc num ids st V).nc ∧
+    (ReqQueue.wait nc num ids st V).nc.put.view.map (fun e => (e.c.id, e.subs)) = nc.put.view.map (fun e => (e.c.id, e.subs)) ∧
+    (ReqQueue.wait nc num ids st V).nc.get.view.map (fun e => (e.c.id, e.subs)) = nc.get.view.map (fun e => (e.c.id, e.subs))
 
-theorem refused_wait_harmless_counterexample : ¬ refused_wait_harmless_Statement := by
+/-- false of the code as found (F19): NC_REQ_TO_FREE stays set on the valid requests -/
+theorem refused_wait_harmless_counterexample : ¬ refused_wait_harmless_Statement {} := by
   intro h
-  have hi : Inv (run {} (f19History.take 3)) :=
-    queue_inv_partial _ {} inv_init (by simp [f19History, Admissible, wellFormed, notRefused, sub1])
-  have := h _ hi 2 [0, 998] (some [777, 777]) (by decide)
-  revert this
-  decide
+  have hi : Inv (run {} {} (f19History.take 3)) :=
+    queue_inv_partial {} _ {} inv_init (by simp [f19History, Admissible, wellFormed, notRefused, sub1])
+  have h1 := (h _ hi 2 [0, 998] (some [777, 777]) (by decide)).1
+  have hm := (queue_inv_meaning _ h1).1.2.2.2.2.2
+  have := (hm ⟨{ id := 0, varBegin := 100, toFree := true, abufIndex := -1, status := some 0, maxRec := -1, tag := 0 }, [sub1]⟩ (by decide)).2.2.2.1
+  simp at this
+
+/-- true once the refusal path clears the marks (F19 fixed) -/
+theorem refused_wait_harmless_fixed (V : Variant) (hV : V.clearOnRefusal = true) : refused_wait_harmless_Statement V := by
+  intro nc h num ids st herr
+  refine ⟨wait_inv_fixed nc h num ids st V hV, ?_⟩
+  have hsub : SubsetPath nc num ids st V := by
+    by_cases hs : SubsetPath nc num ids st V
+    · exact hs
+    · exact absurd (err_of_not_subset nc num ids st V hs) herr
+  obtain ⟨vP, vG, hP, hG⟩ := h
+  have hw := wait_refused_fixed nc vP vG hP.rep hG.rep hP.clean hG.clean hP.distinct hG.distinct num ids st V hV hsub herr
+  rw [rep_view _ _ hw.1, rep_view _ _ hw.2.1, rep_view _ _ hP.rep, rep_view _ _ hG.rep]
+  exact ⟨clearE_sub vP, clearE_sub vG⟩
 
 /-! ### wait on an explicit id list -/
 
-/-- `wait_exact` / `status_by_id` / `ids_nulled` (partial: no shortcut of extract_reqs fires).
-    A successful wait on an explicit id list
+/-- `wait_exact` / `status_by_id` / `ids_nulled` (partial: no shortcut of extract_reqs fires; every
+    code variant).  A successful wait on an explicit id list
     * leaves exactly the requests NOT named pending, in the same order and unchanged (core fields
       and the payload of every non-lead request),
     * completes exactly the named ones, each once (`donePut`/`doneGet` = the named requests in
@@ -238,68 +276,63 @@ theorem refused_wait_harmless_counterexample : ¬ refused_wait_harmless_Statemen
     * when statuses[] is given, the status pointer of a completed request refers to a slot i with
       req_ids[i] = its id,
     * and the invariant holds again. -/
-theorem wait_exact_partial (nc : NC) (h : Inv nc) (num : Int) (ids : List Int) (st : Option (List Int))
-    (hsub : SubsetPath nc num st) (herr : (ReqQueue.wait nc num ids st).err = NC_NOERR) :
-    (ReqQueue.wait nc num ids st).nc.put.view = nc.put.view.filter (fun e => decide (e.c.id ∉ ids)) ∧
-    (ReqQueue.wait nc num ids st).nc.get.view = nc.get.view.filter (fun e => decide (e.c.id ∉ ids)) ∧
-    (ReqQueue.wait nc num ids st).donePut.map (fun l => l.c.id)
+theorem wait_exact_partial (V : Variant) (nc : NC) (h : Inv nc) (num : Int) (ids : List Int) (st : Option (List Int))
+    (hsub : SubsetPath nc num ids st V) (herr : (ReqQueue.wait nc num ids st V).err = NC_NOERR) :
+    WaitExact nc ids st (ReqQueue.wait nc num ids st V) ∧
+    (ReqQueue.wait nc num ids st V).donePut.map (fun l => l.c.id)
         = (nc.put.view.filter (fun e => decide (e.c.id ∈ ids))).map (fun e => e.c.id) ∧
-    (ReqQueue.wait nc num ids st).doneGet.map (fun l => l.c.id)
+    (ReqQueue.wait nc num ids st V).doneGet.map (fun l => l.c.id)
         = (nc.get.view.filter (fun e => decide (e.c.id ∈ ids))).map (fun e => e.c.id) ∧
-    (ReqQueue.wait nc num ids st).ids = ids.map (fun _ => NC_REQ_NULL) ∧
-    (∀ l ∈ (ReqQueue.wait nc num ids st).donePut ++ (ReqQueue.wait nc num ids st).doneGet, l.c.toFree = true ∧
-        (st.isSome = true → ∃ i, l.c.status = some i ∧ ids[i]? = some l.c.id)) ∧
-    Inv (ReqQueue.wait nc num ids st).nc := by
-  have hinv := wait_inv nc h num ids st herr
+    Inv (ReqQueue.wait nc num ids st V).nc := by
+  have hinv := wait_inv nc h num ids st V herr
   obtain ⟨vP, vG, hP, hG⟩ := h
   have hw := wait_subset nc vP vG hP.rep hG.rep hP.clean hG.clean hP.distinct hG.distinct hP.noEmpty hG.noEmpty
     (fun e he => ⟨(hP.ids e he).1, hP.ne_null e he⟩)
     (fun e he => ⟨by have := (hG.ids e he).1; omega, hG.ne_null e he⟩)
-    num ids st hsub herr
+    num ids st V hsub herr
+  unfold WaitExact
   rw [rep_view _ _ hP.rep, rep_view _ _ hG.rep, rep_view _ _ hw.1, rep_view _ _ hw.2.1]
-  exact ⟨rfl, rfl, hw.2.2.2.1, hw.2.2.2.2.1, hw.2.2.1, hw.2.2.2.2.2.1, hinv⟩
+  exact ⟨⟨rfl, rfl, hw.2.2.1, hw.2.2.2.2.2.1⟩, hw.2.2.2.1, hw.2.2.2.2.1, hinv⟩
 
-/-- the full statement of `wait_exact`: for EVERY successful wait on an explicit list -/
-def wait_exact_Statement : Prop :=
+/-- the full statement of `wait_exact` + `status_by_id` + `ids_nulled`: for EVERY successful wait
+    on an explicit list -/
+def wait_exact_Statement (V : Variant) : Prop :=
   ∀ nc : NC, Inv nc → ∀ (ids : List Int) (st : Option (List Int)),
-    (ReqQueue.wait nc ids.length ids st).err = NC_NOERR →
-    (ReqQueue.wait nc ids.length ids st).nc.put.view = nc.put.view.filter (fun e => decide (e.c.id ∉ ids))
+    (ReqQueue.wait nc ids.length ids st V).err = NC_NOERR →
+    WaitExact nc ids st (ReqQueue.wait nc ids.length ids st V)
 
-/-- F4b: two puts A (id 0), B (id 2) pending; wait_all(2,[A,NC_REQ_NULL]) completes B as well -/
-theorem wait_exact_counterexample : ¬ wait_exact_Statement := by
+/-- code as found, F4b: two puts A (id 0), B (id 2) pending; wait_all(2,[A,NC_REQ_NULL]) completes B as well -/
+theorem wait_exact_counterexample : ¬ wait_exact_Statement {} := by
   intro h
-  have hi : Inv (run {} (f19History.take 2)) :=
-    queue_inv_partial _ {} inv_init (by simp [f19History, Admissible, wellFormed, notRefused, sub1])
-  have := h _ hi [0, -1] (some [777, 777]) (by decide)
+  have hi : Inv (run {} {} (f19History.take 2)) :=
+    queue_inv_partial {} _ {} inv_init (by simp [f19History, Admissible, wellFormed, notRefused, sub1])
+  have := (h _ hi [0, -1] (some [777, 777]) (by decide)).1
   revert this
   decide
 
-/-- the full statement of `status_by_id` -/
-def status_by_id_Statement : Prop :=
-  ∀ nc : NC, Inv nc → ∀ (ids : List Int) (st : List Int),
-    (ReqQueue.wait nc ids.length ids (some st)).err = NC_NOERR →
-    ∀ l ∈ (ReqQueue.wait nc ids.length ids (some st)).donePut ++ (ReqQueue.wait nc ids.length ids (some st)).doneGet,
-      ∃ i, l.c.status = some i ∧ ids[i]? = some l.c.id
-
-/-- F4a: two gets A (id 1), B (id 3) pending; wait_all(2,[B,A],st): A's status pointer is &st[0]
-    although req_ids[0] = B -/
-theorem status_by_id_counterexample : ¬ status_by_id_Statement := by
+/-- code as found, F4a: two gets A (id 1), B (id 3) pending; wait_all(2,[B,A],st): A's status pointer
+    is &st[0] although req_ids[0] = B -/
+theorem status_by_id_counterexample : ¬ wait_exact_Statement {} := by
   intro h
-  have hi : Inv (run {} [.post false false 100 100 (-1) 0 [sub1] (-1), .post false false 200 200 (-1) 1 [sub1] (-1)]) :=
-    queue_inv_partial _ {} inv_init (by simp [Admissible, wellFormed, notRefused, sub1])
-  have := h _ hi [3, 1] [777, 777] (by decide)
+  have hi : Inv (run {} {} [.post false false 100 100 (-1) 0 [sub1] (-1), .post false false 200 200 (-1) 1 [sub1] (-1)]) :=
+    queue_inv_partial {} _ {} inv_init (by simp [Admissible, wellFormed, notRefused, sub1])
+  have := (h _ hi [3, 1] (some [777, 777]) (by decide)).2.2.2
     ⟨{ id := 1, varBegin := 100, toFree := true, abufIndex := -1, status := some 0, maxRec := -1, tag := 0 }, 0, 1⟩ (by decide)
-  obtain ⟨i, hi1, hi2⟩ := this
+  obtain ⟨i, hi1, hi2⟩ := this.2 rfl
   simp at hi1
   subst hi1
   simp at hi2
 
+/-- true once the shortcuts also compare req_ids[] with the queue (F4 fixed) -/
+theorem wait_exact_all_fixed (V : Variant) (hV : V.shortcutChecksIds = true) : wait_exact_Statement V :=
+  fun nc h ids st herr => wait_exact_fixed nc h ids st V hV herr
+
 /-- non-vacuity of `wait_exact_partial`: a subset wait naming the middle one of three puts while a
     get is pending takes the subset path and succeeds -/
-example : SubsetPath (run {} [.post true true 100 100 (-1) 0 [sub1] (-1), .post true true 200 200 (-1) 1 [sub1] (-1),
+example : SubsetPath (run {} {} [.post true true 100 100 (-1) 0 [sub1] (-1), .post true true 200 200 (-1) 1 [sub1] (-1),
                               .post true true 300 300 (-1) 2 [sub1] (-1), .post false false 100 100 (-1) 3 [sub1] (-1)])
-                     1 (some [777]) ∧
-    (ReqQueue.wait (run {} [.post true true 100 100 (-1) 0 [sub1] (-1), .post true true 200 200 (-1) 1 [sub1] (-1),
+                     1 [2] (some [777]) ∧
+    (ReqQueue.wait (run {} {} [.post true true 100 100 (-1) 0 [sub1] (-1), .post true true 200 200 (-1) 1 [sub1] (-1),
                               .post true true 300 300 (-1) 2 [sub1] (-1), .post false false 100 100 (-1) 3 [sub1] (-1)])
                    1 [2] (some [777])).err = NC_NOERR := by
   constructor
@@ -368,9 +401,9 @@ theorem post_spec (nc : NC) (h : Inv nc) (sorted : Bool) (varBegin reqOff abuf :
     (∀ e ∈ nc.put.view, e.c.id ≠ r.2) ∧
     (sorted = true → (∀ e ∈ nc.put.view.drop p, e.c.varBegin > reqOff) ∧
                      (∀ e, (nc.put.view.take p).getLast? = some e → e.c.varBegin ≤ reqOff)) ∧
-    Inv (step nc (.post true sorted varBegin reqOff abuf tag subs maxRec)) := by
+    Inv (step {} nc (.post true sorted varBegin reqOff abuf tag subs maxRec)) := by
   intro r p
-  have hstep := step_inv nc h (.post true sorted varBegin reqOff abuf tag subs maxRec) hsubs trivial
+  have hstep := step_inv {} nc h (.post true sorted varBegin reqOff abuf tag subs maxRec) hsubs trivial
   obtain ⟨vP, vG, hP, hG⟩ := h
   have hq := post_inv nc.put 0 vP hP 0 (by decide) sorted varBegin reqOff abuf tag subs maxRec hsubs
   have hv := rep_view _ _ hP.rep
@@ -435,77 +468,48 @@ theorem post_spec (nc : NC) (h : Inv nc) (sorted : Bool) (varBegin reqOff abuf :
 
 /-! ### numrecs after a wait (F21) and the record split of varn (F20) -/
 
-/-- what the blocking calls do: after a wait in which this process completed puts, the record count
-    is the maximum of the old count and the `max_rec` of every completed put -/
-def numrecs_Statement : Prop :=
-  ∀ nc : NC, Inv nc → 0 ≤ nc.numrecs → ∀ num ids st, (ReqQueue.wait nc num ids st).err = NC_NOERR →
-    (ReqQueue.wait nc num ids st).nc.numrecs = maxRecOf nc.numrecs (ReqQueue.wait nc num ids st).donePut
+/-- what the blocking calls do: after a wait the record count is the maximum of the old count and
+    the `max_rec` of every put the wait completed -/
+def numrecs_Statement (V : Variant) : Prop :=
+  ∀ nc : NC, Inv nc → 0 ≤ nc.numrecs → ∀ num ids st, (ReqQueue.wait nc num ids st V).err = NC_NOERR →
+    (ReqQueue.wait nc num ids st V).nc.numrecs = maxRecOf nc.numrecs (ReqQueue.wait nc num ids st V).donePut
 
-/-- F21: put to a fixed variable (queued first), put to record 3 (max_rec 4), a pending get;
-    wait_all(1,[id of the record put]) leaves numrecs = 3 -/
-theorem numrecs_counterexample : ¬ numrecs_Statement := by
+/-- code as found, F21: put to a fixed variable (queued first), put to record 3 (max_rec 4), a pending
+    get; wait_all(1,[id of the record put]) leaves numrecs = 3 -/
+theorem numrecs_counterexample : ¬ numrecs_Statement {} := by
   intro h
-  have hi : Inv (run { numrecs := 3 } [.post true true 100 100 (-1) 0 [sub1] (-1), .post true true 200 968 (-1) 1 [sub1] 4,
+  have hi : Inv (run {} { numrecs := 3 } [.post true true 100 100 (-1) 0 [sub1] (-1), .post true true 200 968 (-1) 1 [sub1] 4,
                                        .post false false 100 100 (-1) 2 [sub1] (-1)]) :=
-    queue_inv_partial _ _ ⟨[], [], QInv.empty _ _ ⟨rfl, rfl, rfl, rfl⟩, QInv.empty _ _ ⟨rfl, rfl, rfl, rfl⟩⟩
+    queue_inv_partial {} _ _ ⟨[], [], QInv.empty _ _ ⟨rfl, rfl, rfl, rfl⟩, QInv.empty _ _ ⟨rfl, rfl, rfl, rfl⟩⟩
       (by simp [Admissible, wellFormed, notRefused, sub1])
   have := h _ hi (by decide) 1 [2] (some [777]) (by decide)
   revert this
   decide
 
-/-- `numrecs_partial`: for NC_REQ_ALL and NC_PUT_REQ_ALL (every put lead is extracted, so the loop
-    bound `num_w_lead_reqs` covers the whole queue) the record count is right -/
-theorem numrecs_partial (nc : NC) (h : Inv nc) (h0 : 0 ≤ nc.numrecs) (num : Int) (ids : List Int) (st : Option (List Int))
-    (hnum : num = NC_REQ_ALL ∨ num = NC_PUT_REQ_ALL) :
-    (ReqQueue.wait nc num ids st).nc.numrecs = maxRecOf nc.numrecs (ReqQueue.wait nc num ids st).donePut := by
-  obtain ⟨vP, vG, hP, hG⟩ := h
-  have hlP := lead_length_of_rep hP.rep
-  have hfl := flagAll_flagged nc.put.lead
-  have hnn := newNumrecs_allflagged (flagAll nc.put.lead) hfl nc.numrecs h0
-  have htake : (flagAll nc.put.lead).take nc.put.numLead = flagAll nc.put.lead := by
-    apply List.take_of_length_le; simp [flagAll, hlP]
-  have hdone : (nc.put.takeAll.cleanup nc.put.numLead).2 = if nc.put.numLead = 0 then [] else flagAll nc.put.lead := by
-    unfold Q.cleanup Q.takeAll
-    split
-    · rfl
-    · simp only [cleanupGo_allflagged (flagAll nc.put.lead) hfl]
-  have hempty : nc.put.numLead = 0 → flagAll nc.put.lead = [] := by
-    intro hz; have : nc.put.lead = [] := List.eq_nil_of_length_eq_zero (by omega)
-    rw [this]; rfl
-  have hW0 : nc.put.numReqs = 0 → flagAll nc.put.lead = [] := by
-    intro hz
-    have : total vP = 0 := by rw [← hP.rep.numReqs]; exact hz
-    have hv : vP = [] := by
-      cases hvv : vP with
-      | nil => rfl
-      | cons e es =>
-        have hne := hP.noEmpty e (by rw [hvv]; exact List.mem_cons_self)
-        rw [hvv] at this; simp at this; exact absurd this.1 hne
-    rw [hP.rep.lead, hv]; rfl
-  have key : ∀ n, n = NC_REQ_ALL ∨ n = NC_PUT_REQ_ALL →
-      (ReqQueue.wait nc n ids st).nc.numrecs =
-        (if nc.put.numReqs > 0 ∧ nc.numrecs < newNumrecs nc.numrecs nc.put.numLead (flagAll nc.put.lead)
-         then newNumrecs nc.numrecs nc.put.numLead (flagAll nc.put.lead) else nc.numrecs) ∧
-      (ReqQueue.wait nc n ids st).donePut = (nc.put.takeAll.cleanup nc.put.numLead).2 := by
-    intro n hn
-    rcases hn with rfl | rfl <;>
-      simp [ReqQueue.wait, extract, NC_PUT_REQ_ALL, NC_REQ_ALL, NC_GET_REQ_ALL, NC_NOERR, Q.takeAll]
-  obtain ⟨k1, k2⟩ := key num hnum
-  rw [k1, k2, hdone]
-  unfold newNumrecs
-  rw [htake, hnn.1]
-  by_cases hz : nc.put.numLead = 0
-  · simp only [hz, if_true]
-    rw [hempty hz]; simp [maxRecOf]
-  · simp only [hz, if_false]
-    by_cases hw : nc.put.numReqs > 0
-    · have := hnn.2
-      split
-      · rfl
-      · rename_i hc; have : ¬ nc.numrecs < maxRecOf nc.numrecs (flagAll nc.put.lead) := fun hh => hc ⟨hw, hh⟩
-        omega
-    · have : nc.put.numReqs = 0 := by omega
-      rw [hW0 this]; simp [maxRecOf]
+/-- `numrecs_partial` (every code variant): whenever the wait does not take the subset path —
+    NC_REQ_ALL / NC_GET_REQ_ALL / NC_PUT_REQ_ALL and the three shortcuts, where every pending put
+    is extracted and the loop bound covers the whole queue — the record count is right -/
+theorem numrecs_partial (V : Variant) (nc : NC) (h : Inv nc) (h0 : 0 ≤ nc.numrecs) (num : Int) (ids : List Int)
+    (st : Option (List Int)) (hns : ¬ SubsetPath nc num ids st V) :
+    (ReqQueue.wait nc num ids st V).nc.numrecs = maxRecOf nc.numrecs (ReqQueue.wait nc num ids st V).donePut :=
+  numrecs_nonsubset nc h h0 num ids st V hns
+
+/-- true for every successful wait once req_commit scans all `numLeadPutReqs` leads (F21 fixed) -/
+theorem numrecs_fixed (V : Variant) (hV : V.numrecsAllLeads = true) : numrecs_Statement V := by
+  intro nc h h0 num ids st herr
+  by_cases hsub : SubsetPath nc num ids st V
+  · obtain ⟨vP, vG, hP, hG⟩ := h
+    have hw := wait_subset nc vP vG hP.rep hG.rep hP.clean hG.clean hP.distinct hG.distinct hP.noEmpty hG.noEmpty
+      (fun e he => ⟨(hP.ids e he).1, hP.ne_null e he⟩)
+      (fun e he => ⟨by have := (hG.ids e he).1; omega, hG.ne_null e he⟩)
+      num ids st V hsub herr
+    exact hw.2.2.2.2.2.2.2.2 hV h0
+  · exact numrecs_nonsubset nc h h0 num ids st V hsub
+
+/-- non-vacuity of the fixed variant on the witness of F21: numrecs becomes 4 -/
+example : (ReqQueue.wait (run {} { numrecs := 3 } [.post true true 100 100 (-1) 0 [sub1] (-1), .post true true 200 968 (-1) 1 [sub1] 4,
+                                                  .post false false 100 100 (-1) 2 [sub1] (-1)])
+            1 [2] (some [777]) { numrecsAllLeads := true }).nc.numrecs = 4 := by decide
 
 /-- `record_split`: splitting a record-variable request into one request per record (both the
     varm path and the varn path, ncmpio_add_record_requests) yields `k` pieces of `nelems / k`
@@ -536,10 +540,10 @@ theorem record_split_tiles (tag : Nat) (nelems xoff xsz : Int) (k : Nat) (i : Na
 def obligations : List String := [
   "merge_spec", "sort_spec", "coalesce_preserves_map", "merge_disjoint_identity", "aggregate_disjoint",
   "read_fills_all_counterexample", "read_fills_all_partial",
-  "queue_inv_meaning", "inv_init", "queue_inv_partial", "queue_inv_counterexample",
-  "refused_wait_harmless_counterexample",
-  "wait_exact_partial", "wait_exact_counterexample", "status_by_id_counterexample", "wait_all_spec",
+  "queue_inv_meaning", "inv_init", "queue_inv_partial", "queue_inv_counterexample", "queue_inv_fixed",
+  "refused_wait_harmless_counterexample", "refused_wait_harmless_fixed",
+  "wait_exact_partial", "wait_exact_counterexample", "status_by_id_counterexample", "wait_exact_all_fixed", "wait_all_spec",
   "cancel_spec", "post_spec",
-  "numrecs_counterexample", "numrecs_partial", "record_split", "record_split_tiles"
+  "numrecs_counterexample", "numrecs_partial", "numrecs_fixed", "record_split", "record_split_tiles"
 ]
 end PnVerif.Props.C02
